@@ -365,7 +365,23 @@ def phase_drv(ctx, drv, thorough, acc):
         f.result()
 
 
+def phase_drv_scen(ctx, drv, thorough, acc):
+    """spec -> code at the driver level: behaviours of MigrationScen as MMU/GPU scenarios."""
+    behs, _ = ctx.simulate(['pmc'], 'MigrationScen.tla', 'MigrationScen.cfg', num=200 if thorough else 25, depth=130)
+    scen = [{'steps': common.acts_to_steps(b)} for b in behs]
+    sfile = os.path.join(ctx.scratch, 'drvscen.json')
+    json.dump(scen, open(sfile, 'w'))
+    t = os.path.join(ctx.scratch, 'trace_drvscen.ndjson')
+    stats = _drive(ctx, drv, ['-drvscen', sfile, '-drvout', t, '-out', os.path.join(ctx.scratch, 'unused_ds.ndjson')])
+    ctx.log('replayed %d TLC behaviours on the real driver: %s' % (len(scen), stats))
+    ctx.sample({'driver_scenario_from_TLC_behaviour': scen[0]['steps'][:12]})
+    common.validate_and_triage(ctx, dspec(2), t, {'cmd': 'c19', 'level': 'driverscen', 'ngpu': 2, 'scenarios': scen})
+    acc.drv_traces.append(t)
+    acc.events += stats['drv_events']
+
+
 def phase_drv_rest(ctx, drv, thorough, acc):
+    phase_drv_scen(ctx, drv, thorough, acc)
     # scenarios exhibiting the known driver defects (accepted as soon as the fixes are applied)
     run_drv(ctx, drv, acc, 'known', 2, 'known', 2, ctx.seed)
     if thorough:
@@ -440,7 +456,12 @@ def replay(ctx, path):
     d = rp['driver']
     t = os.path.join(ctx.scratch, 'replay.ndjson')
     tspec = TSPEC
-    if 'scenarios' in d:
+    if d.get('level') == 'driverscen':
+        tspec = dspec(2)
+        sfile = os.path.join(ctx.scratch, 'drvscen.json')
+        json.dump(d['scenarios'], open(sfile, 'w'))
+        args = ['-drvscen', sfile, '-drvout', t, '-out', os.path.join(ctx.scratch, 'u1.ndjson')]
+    elif 'scenarios' in d:
         sfile = os.path.join(ctx.scratch, 'scen.json')
         json.dump(d['scenarios'], open(sfile, 'w'))
         args = ['-scen', sfile, '-out', t]
